@@ -430,7 +430,22 @@ class ProdParser:
         for token in tokens:
             yield token
 
-    def parse(  # noqa: C901
+    # number of running parse() calls: sub productions run nested
+    _depth = 0
+
+    def parse(self, *args, **kwargs):
+        """see :meth:`_parse`; a token a sub production handed back in
+        ``savedTokens`` is for the calling parse only, so nothing is kept
+        once the outermost call has ended"""
+        ProdParser._depth += 1
+        try:
+            return self._parse(*args, **kwargs)
+        finally:
+            ProdParser._depth -= 1
+            if not ProdParser._depth:
+                del savedTokens[:]
+
+    def _parse(  # noqa: C901
         self,
         text,
         name,
